@@ -383,6 +383,10 @@ func newWorker(root string, n int, ops []opDef) *worker {
 	return w
 }
 
+// clockBase shifts the start of the virtual clock (set by the store-lookup-trim
+// family to place "now" at several positions within the hour).
+var clockBase time.Duration
+
 func (w *worker) fresh() *env {
 	w.seq++
 	nd := filepath.Join(w.base, fmt.Sprintf("h%d", w.seq))
@@ -407,7 +411,10 @@ func (w *worker) fresh() *env {
 		os.RemoveAll(filepath.Join(nd, t.Name()))
 	}
 	e := &env{dir: nd, lastUse: map[string]time.Time{}, content: map[int]int{}}
-	e.t0 = time.Now().Truncate(time.Second)
+	// The virtual clock starts at a fixed instant (minute 7, second 11 of an hour),
+	// not at the real time: whether a defect that rounds times to the hour shows
+	// must not depend on when the check is run. clockBase may move it.
+	e.t0 = time.Date(2026, 10, 2, 12, 7, 11, 0, time.UTC).Add(clockBase)
 	e.clk = e.t0
 	e.c = cache.WithDirVerif(w.tmpl, nd)
 	cache.SetNowVerif(e.c, e.now)
@@ -592,6 +599,9 @@ type kase struct {
 	Steps []step   `json:"steps,omitempty"`
 	Names []string `json:"names,omitempty"`
 	Pop   *popCase `json:"pop,omitempty"`
+	// Base: shift of the virtual clock's start (store-lookup-trim family)
+	Base   time.Duration `json:"clock_base,omitempty"`
+	Family string        `json:"family,omitempty"` // "slt": the store-lookup-trim family
 }
 
 func violClass(v string) string {
@@ -623,6 +633,8 @@ func main() {
 			}
 			return nil
 		}
+		clockBase = c.Base
+		defer func() { clockBase = 0 }()
 		v, at, _ := w.run(c.Steps)
 		if v == "" {
 			return nil
@@ -630,6 +642,9 @@ func main() {
 		var names []string
 		for _, s := range c.Steps[:at+1] {
 			names = append(names, w.stepName(s))
+		}
+		if c.Family == "slt" {
+			return []kit.V{{Key: violClass(v) + fmt.Sprintf(" clock+%v history=", c.Base) + strings.Join(names, "; "), What: v, Case: c}}
 		}
 		return []kit.V{{Key: violClass(v) + " history=" + strings.Join(names, "; "), What: v, Case: c}}
 	}
@@ -752,6 +767,43 @@ func main() {
 		bfs("all 13 deltas", full, 2)
 		bfs("5 boundary deltas", reduced, 3)
 	}
+
+	// ----- store, lookup, trim: every pair of deltas, at three positions of the
+	// clock within the hour (the one-hour allowance for stale mtimes is what
+	// keeps an entry that was looked up within five days of the trim) -----
+	var slt int64
+	opIdx := map[string]int{}
+	for i, o := range ops {
+		opIdx[o.name] = i
+	}
+	for _, base := range []time.Duration{0, 30 * time.Minute, 52*time.Minute + 40*time.Second} {
+		clockBase = base
+		for _, first := range []string{"Put(A,X)", "Put(B,X)"} {
+			for _, look := range []string{"Get(A)", "GetBytes(A)", "GetFile(A)", "Put(A,X)"} {
+				if first == "Put(B,X)" && look != "Put(A,X)" {
+					continue
+				}
+				for d1 := range deltas {
+					for d2 := range deltas {
+						st := []step{{-1, opIdx[first]}, {d1, opIdx[look]}, {d2, opIdx["Trim"]}}
+						if first == "Put(B,X)" {
+							st = append([]step{{-1, opIdx["Put(A,X)"]}}, st...)
+						}
+						slt++
+						if v, at, _ := workers[0].run(st); v != "" {
+							var names []string
+							for _, s := range st[:at+1] {
+								names = append(names, workers[0].stepName(s))
+							}
+							r.Violation(violClass(v)+fmt.Sprintf(" clock+%v history=", base)+strings.Join(names, "; "), fmt.Sprintf("clock started %v into the hour; after %s: %s", 7*time.Minute+11*time.Second+base, strings.Join(names, "; "), v), kase{Kind: "history", Steps: st, Names: names, Base: base, Family: "slt"})
+						}
+					}
+				}
+			}
+		}
+	}
+	clockBase = 0
+	r.Set("store_lookup_trim_histories", slt)
 
 	// ----- populations -----
 	maxFiles := 2
